@@ -279,6 +279,7 @@ var subSets = [][][]string{
 	{{"a", "b"}, {"a", "c"}}, // two paths below one prefix element
 	{{"b"}, {"*", "c"}},
 	{{"a"}, {"a"}}, // the same path listed twice: one registration, two remove functions
+	{{"a", "b"}},   // a single path nested below another client's {a}: its removal leaves a child-less node that still holds that client
 }
 
 var probes = [][]string{{"t", "a"}, {"t", "a", "b"}, {"t", "a", "c"}, {"t", "b"}, {"t", "b", "c"}, {"t", "c", "c"}}
@@ -344,7 +345,7 @@ func (s *hsys) Apply(i int) []seqmc.Violation {
 		if s.removes[o.client] != nil {
 			s.removes[o.client]()
 			s.removes[o.client]() // idempotent
-			if s.active[o.client] == 3 {
+			if s.active[o.client] == 3 || s.active[o.client] == 4 {
 				s.past[o.client] |= 1
 			} else if s.active[o.client] >= 0 {
 				s.past[o.client] |= 2
